@@ -34,7 +34,7 @@ static rc::Gen<Scenario> c20_gen()
 	return rc::gen::apply([](std::vector<int> methods, std::vector<Op> ops, int fill) {
 		Scenario sc;
 		sc.malloc_fill = fill ? 0xBE : 0x00;
-		static const char *names[] = {"alice", "root", "guest", "bob", "carol"};
+		static const char *names[] = {"ann", "ann-admin", "guest", "annette", "carol"}; // a plain user whose name is a proper prefix of an admin's and of another plain user's
 		static const bool admin[] = {false, true, false, false, true}, ro[] = {false, false, true, false, true};
 		js::Value root = js::Value::obj(), us = js::Value::obj();
 		for (int i = 0; i < 5; i++) {
